@@ -19,10 +19,14 @@
      the CRC-16 of the bytes before it (C16_accepted_frame_has_valid_crc: an invariant of the bit reader carried through
      every recogniser of the parser), hence a frame altered by a burst of up to 16 bits is never accepted as a frame
      that ends where the original ended (C16_altered_frame_rejected_at_boundary).
+   - The same at HEADER level (Proofs/ParserHdrInv.v; the reader invariant extended with the bit position, which shows
+     the reader is byte-aligned at the CRC byte on any input): every accepted frame begins with a header that ends with
+     the CRC-8 of its own bytes (C16_accepted_frame_has_valid_header_crc), so a header altered by a burst of up to 8
+     bits is never accepted as a header of the same length (C16_altered_header_rejected_at_boundary).
    PARTIAL: an alteration that changes how many bits the subframes consume moves the CRC window (the frame then
    ends elsewhere); the format does not exclude an accidental match (probability about 2^-16); those cases are
    enumerated on the implementation by the PARSE stream (exhaustively in the thorough tier). *)
-From FV Require Import Model.Base Model.Crc Model.Component Model.Parser Proofs.CrcBurst Proofs.CrcField Proofs.ParserInv.
+From FV Require Import Model.Base Model.Crc Model.Component Model.Flac Model.Parser Proofs.CrcBurst Proofs.CrcField Proofs.ParserInv Proofs.ParserHdrInv.
 Local Open Scope N_scope.
 
 Theorem C16_crc16_detects_bursts : forall (x y : list bool) (i j : nat) (p : list bool),
@@ -102,3 +106,25 @@ Theorem C16_altered_frame_rejected_at_boundary :
   length rest' <> length rest.
 Proof. exact altered_frame_rejected_at_boundary. Qed.
 Print Assumptions C16_altered_frame_rejected_at_boundary.
+
+(* ---- the frame header and its CRC-8 ---- *)
+Theorem C16_accepted_frame_has_valid_header_crc :
+  forall (start : list N) (channels bps : N) (f : frame) (rest' : list N),
+  Forall (fun x => x < 256) start -> p_frame channels bps start = Some (f, rest') ->
+  exists H : nat, (4 <= H)%nat /\ (H + 1 <= length start)%nat /\ crc8 (firstn H start) = nth H start 0.
+Proof. exact accepted_frame_has_valid_header_crc. Qed.
+Print Assumptions C16_accepted_frame_has_valid_header_crc.
+
+(* hb: header bytes followed by their CRC-8; hb': as many bytes, differing from hb by a burst of at most 8 bits anywhere
+   (inside the CRC byte or across the boundary included); followed by anything.  If the header recogniser accepts, the
+   header it accepted does not end where hb ended. *)
+Theorem C16_altered_header_rejected_at_boundary :
+  forall (hdr hb' rest : list N) (i j : nat) (p : list bool) (h' : header) (r' : rd),
+  let hb := hdr ++ [crc8 hdr] in
+  length hb' = length hb -> Forall (fun x => x < 256) hb' -> Forall (fun x => x < 256) rest ->
+  zipxor (bytes_bits8 hb) (bytes_bits8 hb') = repeat false i ++ p ++ repeat false j ->
+  length p = 8%nat -> existsb (fun b => b) p = true ->
+  p_frame_header (hb' ++ rest) (rd_of (hb' ++ rest)) = Some (h', r') ->
+  r_cnt r' <> N.of_nat (length hb).
+Proof. exact altered_header_rejected_at_boundary. Qed.
+Print Assumptions C16_altered_header_rejected_at_boundary.
